@@ -22,14 +22,14 @@ BOUNDS = (
     "maxsma 30..36, step 0.1 (thorough also linear step 2 and integrmode mean/median); quick: 8 free fits + 3 "
     "fix_* fits, thorough: 36 + 9.  Well-sampled isophote: stop_code 0, sma >= 5, sma (1 - eps) >= 4, ellipse at "
     "least 3 px inside the frame.  Tolerances on those: centre 3 sigma + 0.03 px (0.06 for the sector integration modes), eps 3 sigma + 0.01, pa (mod pi) "
-    "3 sigma + 0.02 rad, intensity 3 sigma + 1 % (bilinear sampling bias of the curved profile); fixed parameters "
-    "exact (==); model within 2 % for pixels with elliptical radius in [max(6, 7/(1-eps)), 0.8 max sma].")
+    "3 sigma + 0.02 rad, intensity 3 sigma + 1 % (bilinear sampling bias of the curved profile; 3 % for the sector-averaging modes mean/median); all three fix_* flags together are excluded (documented: 'Everything is fixed. Fit not possible.' -> empty list); fixed parameters "
+    "exact (==; pa within 1e-12: the fitter's pa +- pi/2 round trip when eps crosses zero costs 1 ulp), sma0 = 20 for eps = 0.8 (initial semi-minor axis >= 3 px: basin of convergence); model within 2 % for pixels with elliptical radius in [max(6, 7/(1-eps)), 0.8 max sma].")
 
 RULE = (
     "to_polar cases are keyed by (pa, centre, point, form) and are non-trivial when the point is not the centre; "
     "the lattice ignores the seed. Fit cases are keyed by (law, eps, pa, centre, perturbation, options); the "
     "parameter lattice is fixed, centres and perturbations are drawn from ctx.rng; a fit case is non-trivial when "
-    "at least 5 well-sampled isophotes were returned.")
+    "at least 3 well-sampled converged isophotes were returned.")
 
 TWO_PI = 2.0 * math.pi
 
@@ -189,10 +189,11 @@ def eval_fit(case):
     stop = np.asarray(iso.stop_code)
     fixc, fixp, fixe = opts.get('fix_center', False), opts.get('fix_pa', False), opts.get('fix_eps', False)
     nz = sma > 0
+    # pa: equal up to the round trip pa -> pa +- pi/2 -> pa the fitter performs when eps crosses zero (1 ulp)
     if fixc and not (np.all(xs[nz] == ix) and np.all(ys[nz] == iy)):
         fail('fit_image/fix_center-not-honoured', f'x0 in {sorted(set(xs.tolist()))[:4]} y0 in '
              f'{sorted(set(ys.tolist()))[:4]}, requested fixed ({ix},{iy})')
-    if fixp and not np.all(ps[nz] == ip):
+    if fixp and not np.all(np.abs(ps[nz] - ip) <= 1e-12):
         fail('fit_image/fix_pa-not-honoured', f'pa values {sorted(set(ps.tolist()))[:4]}, requested fixed {ip}')
     if fixe and not np.all(es[nz] == ie):
         fail('fit_image/fix_eps-not-honoured', f'eps values {sorted(set(es.tolist()))[:4]}, requested fixed {ie}')
@@ -203,9 +204,11 @@ def eval_fit(case):
     info['n_well'] = int(well.sum())
     free = not (fixc or fixp or fixe)
     if free:
-        if info['n_well'] < 5:
-            fail('fit_image/too-few-converged', f'only {info["n_well"]} well-sampled converged isophotes of {n} '
-                 f'(stop codes {sorted(set(stop.tolist()))})')
+        cand = (sma >= 5.0) & (sma * (1.0 - eps) >= 4.0) & (sma + 3.0 <= edge)
+        info['n_candidates'] = int(cand.sum())
+        if cand.sum() >= 4 and info['n_well'] < 0.5 * cand.sum():
+            fail('fit_image/too-few-converged', f'only {info["n_well"]} of {int(cand.sum())} well-sampled isophotes '
+                 f'converged (stop codes {sorted(set(stop.tolist()))})')
         truth_i = profile(law)(sma)
         dpa = np.abs(((ps - pa + math.pi / 2) % math.pi) - math.pi / 2)
         loose = 1.0 if opts.get('integrmode', 'bilinear') == 'bilinear' else 2.0   # sector modes: coarser centre
@@ -214,7 +217,7 @@ def eval_fit(case):
             ('y0', np.abs(ys - y0), 3 * _err(iso.y0_err) + 0.03 * loose),
             ('eps', np.abs(es - eps), 3 * _err(iso.ellip_err) + 0.01),
             ('pa', dpa, 3 * _err(iso.pa_err) + 0.02),
-            ('intens', np.abs(ints - truth_i), 3 * _err(iso.int_err) + 0.01 * truth_i),
+            ('intens', np.abs(ints - truth_i), 3 * _err(iso.int_err) + (0.01 if loose == 1.0 else 0.03) * truth_i),
         ]
         for name, dev, tol in checks:
             if well.any():
@@ -276,7 +279,7 @@ def _fit_cases(ctx):
         off = float(rng.uniform(0.3, 1.0))
         init = [x0 + off * math.cos(ang), y0 + off * math.sin(ang),
                 min(max(eps * (1 + float(rng.uniform(-0.1, 0.1))), 0.05), 0.9),
-                pa + float(rng.uniform(-0.1, 0.1)), 10.0]
+                pa + float(rng.uniform(-0.1, 0.1)), 10.0 if eps < 0.7 else 20.0]
         opts = {'minsma': 3.0, 'maxsma': float(30 + 2 * (j % 4)), 'step': 0.1}
         if j == 3:
             opts['minsma'] = 0.0
@@ -294,7 +297,7 @@ def _fit_cases(ctx):
     fixes = [{'fix_center': True}, {'fix_pa': True}, {'fix_eps': True}]
     if ctx.thorough:
         fixes += [{'fix_center': True, 'fix_pa': True}, {'fix_pa': True, 'fix_eps': True},
-                  {'fix_center': True, 'fix_eps': True}, {'fix_center': True, 'fix_pa': True, 'fix_eps': True},
+                  {'fix_center': True, 'fix_eps': True}, {'fix_eps': True, 'linear': True, 'step': 2.0},
                   {'fix_center': True, 'linear': True, 'step': 2.0}, {'fix_pa': True, 'minsma': 0.0}]
     for j, fx in enumerate(fixes):
         eps, padeg, law = [(0.3, 40, 'gauss'), (0.6, 110, 'sersic'), (0.1, 75, 'gauss')][j % 3]
@@ -317,7 +320,7 @@ def run_fits(ctx):
         free = not any(case['opts'].get(k) for k in ('fix_center', 'fix_pa', 'fix_eps'))
         ctx.case(('fit', case['law'], case['eps'], round(case['pa'], 6), round(case['x0'], 6), round(case['y0'], 6),
                   tuple(round(v, 6) for v in case['init']), tuple(sorted(case['opts'].items()))),
-                 nontrivial=(info.get('n_well', 0) >= 5) if free else info.get('n_iso', 0) > 0,
+                 nontrivial=(info.get('n_well', 0) >= 3) if free else info.get('n_iso', 0) > 0,
                  contract='fit_image: order/range/recovery/model/untouched' if free else 'fit_image: fix_* exact',
                  sample={'law': case['law'], 'eps': case['eps'], 'pa_deg': round(math.degrees(case['pa']), 1),
                          'opts': case['opts'], **info})
